@@ -31,7 +31,7 @@ RULE = ("recordings of 12000-90000 samples x 65/97/385 channels, batch sizes {40
 ASSUMPTIONS = ["pyfftw replaced by a scipy.fft stand-in (numerically equivalent to +-1 LSB of the int16 output; worker-count identity and sync identity do not depend on it)",
                "workers share nothing but the output / QC files", "the batch-wise reference re-uses the repository's own per-batch building blocks (saturation, fshift, "
                "kfilt/car): it judges the batching / seek / stitch logic, not the DSP (C05, C16 do)"]
-REQUIRED = {"configs": 4, "explicit_width_configs": 3, "width_compared": 3, "workers_probed": 10, "write_rows_judged": 50000, "orders_executed": 8, "sync_columns_compared": 4, "reference_compared": 4,
+REQUIRED = {"configs": 4, "explicit_width_configs": 3, "stale_output_checked": 4, "width_compared": 3, "workers_probed": 10, "write_rows_judged": 50000, "orders_executed": 8, "sync_columns_compared": 4, "reference_compared": 4,
             "saturated_samples": 10}
 CASE_TIMEOUT = 400.0
 MAX_PROCS = 10
@@ -305,6 +305,20 @@ def run_case(case):
                 dev = np.max(np.abs(img1[:, :mcol].astype(np.float64) - np.trunc(np.clip(ref[:, :mcol], -32768, 32767))))
                 res.measure("max_dev_from_reference_lsb", dev)
                 res.check(dev <= 1.0, "output:reference", f"{label}: output differs from batch-wise in-memory destriping by {dev:.2f} LSB", counter="reference_compared")
+            # ---------------- a fresh (non-append) run over an existing, longer output file ends with exactly this run's samples
+            if img1 is not None:
+                os_ = d / "stale" / "out.bin"
+                os_.parent.mkdir()
+                os_.write_bytes(rng.integers(0, 256, len(base) + rowbytes * int(rng.integers(1, 700)), dtype=np.uint8).tobytes())
+                try:
+                    Scheduler.mode, Scheduler.order = "inorder", None
+                    run_destripe(V, b, os_, nbatch, min(nw, 2), opts)
+                    got = os_.read_bytes()
+                    res.check(got == base, "output:stale-file-not-replaced", f"{label}: a run over an existing output of {len(got) - len(base)} more bytes "
+                              f"leaves {len(got)} bytes, a fresh run gives {len(base)}", counter="stale_output_checked")
+                except Exception as e:
+                    res.exception("output:stale:exception", e, label)
+                shutil.rmtree(os_.parent, ignore_errors=True)
             # ---------------- narrower output = the first columns of the full-width output
             if img1 is not None and nc_out != rec.nc:
                 ow = d / "wide" / "out.bin"
